@@ -19,7 +19,7 @@ PROPS = {
     claim="Proof, for every extent and index at ranks 1..4 (thorough: 1..6) on fixed-rank shape containers, of the stride, offset, indices, ndindex, product and reverse formulas the property states, and that ndarray_t/hybrid_ndarray address element (i..) at the layout's offset for row- and column-major; the bijection/ordering clauses that follow from them by the mixed-radix theorem are not decided.",
     note=E1_NOTE + " Assumes extents>=1.",
     technique=E1_TECH,
-    e1=[dict(tu="c01_index.cpp"), dict(tu="c20_ndarray.cpp")],
+    e1=[dict(tu="c01_index.cpp"), dict(tu="c20_ndarray.cpp"), dict(tu="c07_outer_misc.cpp")],
     rule=E1_RULE,
     explanation="Stride/offset/indices formulas of the property statement are stated as branch-to-noreturn obligations over fully symbolic shapes and indices and discharged by LLVM -O2 (dead-branch elimination = proof for all values).",
     not_decided="round-trip identity / injectivity / enumeration order (mixed-radix theorem, not dischargeable); dynamic and bounded shape containers",
@@ -65,7 +65,7 @@ PROPS = {
     claim="Proof that pairwise broadcast_shape is sound and complete w.r.t. NumPy's rule (value exactly when all right-aligned pairs are equal-or-1, then the per-axis maximum) for all rank pairs up to 3x3 (thorough 4x4) and every extent - hence order independent -, idempotent, None-neutral, that the variadic form is the left fold of the pairwise rule, and for view::broadcast_to (source ranks 1..3 into target ranks 1..3, every stretch pattern): value exactly when each source extent is 1 or equals the right-aligned target extent, shape = target, source index inside the source shape, stretched axes read source index 0 (kept axes: proved for rank-1 sources only); associativity is not decided.",
     note=E1_NOTE,
     technique=E1_TECH,
-    e1=[dict(tu="c06_broadcast.cpp"), dict(tu="c06b_broadcast_to.cpp")],
+    e1=[dict(tu="c06_broadcast.cpp"), dict(tu="c06b_broadcast_to.cpp"), dict(tu="c07_outer_misc.cpp")],
     rule=E1_RULE,
     explanation="soundness and completeness are stated per first incompatible aligned axis (nested case split with the call inside each case).",
     not_decided="broadcast_to/broadcast_arrays element law, associativity beyond the fold structure, dynamic/clipped containers",
@@ -127,9 +127,10 @@ PROPS = {
 
 PROPS["C07"] = dict(
     level="other",
-    claim="For every ufunc and single-expression activation (74 names) the scalar operation in the op type equals the reviewed NumPy/PyTorch oracle table with operands in order; view::X/reduce_X/accumulate_X/outer_X construct the ufunc with the op of the same name and pass operands in order; ufunc/outer views apply op to the operands' elements in tuple order. The broadcast element law itself is not decided.",
+    claim="For every ufunc and single-expression activation (74 names) the scalar operation in the op type equals the reviewed NumPy/PyTorch oracle table with operands in order; view::X/reduce_X/accumulate_X/outer_X construct the ufunc with the op of the same name and pass operands in order; ufunc/outer views apply op to the operands' elements in tuple order; (E1) the outer variant has shape shape(a)+shape(b) and splits result index (i,j) into the leading len(a) and trailing len(b) coordinates, for all values. The broadcast element law itself is not decided.",
     note=E2_NOTE,
     technique=E2_TECH,
+    e1=[dict(tu="c07_outer_misc.cpp")],
     e2=[dict(rule="R-UFUNC")],
     rule="E2: one instance per op call operator (R-UFOP), per view-level ufunc entry point (R-UFWD), per ufunc-view application site (R-UFAPPLY); distinct by qualified function; non-trivial = the function has a body with a return",
     explanation="Name -> scalar operation and operand order are structural facts of the op types and forwarding functions; they are compared with an oracle table and with the function's own parameter list.",
